@@ -127,12 +127,12 @@ def run(P: Program, R: Report, tier: str) -> None:
     for c in uus:
         f = A.init_of(c)
         _, results = A.run(f)
-        keep = lambda e: e.depth == 0 and e.kind == "construct"  # noqa: E731
+        keep = lambda e: e.xdepth == 0 and e.kind == "construct"  # noqa: E731
         n_seq = 0
         for pr in results:
             if pr.kind == "raise":
                 continue
-            for seq in pr.sequences(lambda e: (e.depth == 0 and e.kind == "construct") or (e.kind == "cond" and e.depth == 0)):
+            for seq in pr.sequences(lambda e: (e.xdepth == 0 and e.kind == "construct") or (e.kind == "cond" and e.xdepth == 0)):
                 n_seq += 1
                 cons = [e for e in seq if e.kind == "construct"]
                 conds = {strip(e.name): e.args["outcome"] for e in seq if e.kind == "cond"}
@@ -187,7 +187,7 @@ def run(P: Program, R: Report, tier: str) -> None:
         for pr in results:
             if pr.kind == "raise":
                 continue
-            for seq in pr.sequences(lambda e: e.kind == "construct" and e.depth == 0 and e.args.get("_kind") == "prim" and "pixels" in e.args):
+            for seq in pr.sequences(lambda e: e.kind == "construct" and e.xdepth == 0 and e.args.get("_kind") == "prim" and "pixels" in e.args):
                 for e in seq:
                     seen += 1
                     if e.args.get("pixels") != "$pixels":
